@@ -809,11 +809,14 @@ pub fn gen_case(g: &mut Gen, kind: Kind, o: &GenOpts) -> TCase {
         Kind::AntSystem | Kind::Mmas => {
             let ants = if kind == Kind::Mmas { 1 + g.below(8) } else { g.below(9) };
             set("num_ants", ants as f64);
-            set("alpha", g.f64_in(0.0, 5.0));
-            set("beta", g.f64_in(0.0, 5.0));
+            // exponents exactly 0 (heuristic-only / pheromone-only ants) and 1 are boundary values
+            let expo = |g: &mut Gen| match g.below(8) { 0 => 0.0, 1 => 1.0, _ => g.f64_in(0.0, 5.0) };
+            set("alpha", expo(g));
+            set("beta", expo(g));
             set("evaporation", prob(g));
             if kind == Kind::AntSystem {
-                set("default_pheromones", g.f64_in(0.01, 2.0));
+                // trails of exactly 0 are a reachable state (evaporation 1 on unused edges) and a valid start
+                set("default_pheromones", if g.chance(0.1) { 0.0 } else { g.f64_in(0.01, 2.0) });
                 set("decay_coefficient", g.f64_in(0.1, 10.0));
             } else {
                 let min = g.f64_in(0.001, 0.5);
@@ -825,9 +828,11 @@ pub fn gen_case(g: &mut Gen, kind: Kind, o: &GenOpts) -> TCase {
             }
         }
     }
-    let iters = match g.below(6) {
-        0 => 0,
-        1 => 1,
+    let iters = match g.below(12) {
+        0 | 1 => 0,
+        2 | 3 => 1,
+        // bounds n for which n * (1/n) != 1 in floating point
+        4 if o.max_iters >= 40 => *g.pick(&[49u32, 98, 103, 107]),
         _ => g.below(o.max_iters as usize + 1) as u32,
     };
     let term = if o.evaluations_term && g.chance(0.3) { Term::Evaluations(g.below(200) as u32) } else { Term::Iterations(iters) };
